@@ -100,8 +100,19 @@ def _skip_ws(m, i):
 
 def find_function(m, name):
     """return (body_open, body_close) indices of the braces of the definition"""
-    depth = 0
-    # precompute brace depth lazily: iterate over candidates
+    # plibsys style: the function name starts a line and the closing brace of the body is in column 0.
+    # (brace counting over the whole file is unreliable: #if branches may open a block several times)
+    for mo in re.finditer(r"(?m)^%s\b" % re.escape(name), m):
+        j = _skip_ws(m, mo.end())
+        if j >= len(m) or m[j] != "(":
+            continue
+        k = _match(m, j, "(", ")")
+        b = _skip_ws(m, k + 1)
+        if b < len(m) and m[b] == "{":
+            e = m.find("\n}", b)
+            if e < 0:
+                raise InjectError("function %s: no closing brace in column 0" % name)
+            return b, e + 1
     for mo in re.finditer(r"\b%s\b" % re.escape(name), m):
         # brace depth at this position must be 0
         pre = m[:mo.start()]
